@@ -1,8 +1,13 @@
 """C12: Monitor time series and network statistics report the true state.
 Tie B: (a) whole runs of the shipped models in a sequence with a real Monitor (Tie/Compart.v compares the
 Monitor's recorded observations with the model's OObserve stream); (b) NetworkStatistics results against
-Model/NetStats.v.  D: (a) every series rebuilt from the event-tap stream; (b) statistics recomputed by the
-harness's own degree count and BFS (no networkx)."""
+Model/NetStats.v, on the network the run ENDED with.  D: (a) every series rebuilt from the event-tap stream, the set
+of series against the loci registered; also for processes with plain loci and fixed-rate events (AddDelete, user
+processes interpreted from a table; the latter also through the kernel tie, Tie/Kernel.v, the Monitor being the component that
+posts the repeating program [observe]) and for a Monitor that is the last or a nested component;
+(b) statistics recomputed by the harness's own degree count and BFS (no networkx) from the final network, which in
+a third of the cases is not the prototype (a user process posting addNode/addEdge/removeNode/removeEdge, AddDelete,
+Percolate)."""
 import itertools
 
 import networkx
@@ -10,9 +15,10 @@ import networkx
 from vlib import coqlit as L
 from vlib.core import Harness
 from vlib.oracle import Oracle, install
-from harness import compart
+from harness import compart, kcommon, kscript
 
 DELTAS = [0.25, 0.5, 0.75, 1.5, 3.0]
+PLACES = ['first', 'last', 'nested', 'nested_last']
 
 
 def own_stats(nodes, edges):
@@ -73,55 +79,379 @@ def gen_stats_graph(rnd):
     return {'nodes': list(g.nodes()), 'edges': [list(e) for e in g.edges()], 'kind': kind}
 
 
+def gen_mutation(rnd, graph):
+    """a process that changes the network during the run, to stand before (or after) NetworkStatistics in a sequence"""
+    kind = rnd.choice(['script', 'script', 'adddelete', 'adddelete', 'percolate'])
+    dynamics = rnd.choice(['stochastic', 'synchronous'])
+    m = {'kind': kind, 'dynamics': dynamics, 'seed': rnd.randrange(1 << 30), 'stats_first': rnd.random() < 0.25}
+    n = len(graph['nodes'])
+    if kind == 'percolate':
+        m['T'] = rnd.choice([0.0, 0.25, 0.5, 0.5, 0.75])
+    elif kind == 'adddelete':
+        sync = dynamics == 'synchronous'
+        m['pAdd'] = rnd.choice([0.5, 1.0, 1.0] if sync else [0.5, 1.0, 2.0])
+        if rnd.random() < 0.5:
+            # growth only: a new node finds its `degree` neighbours among at least n others
+            m['pDelete'] = 0.0
+            m['degree'] = rnd.randrange(0, min(n, 3) + 1)
+        else:
+            m['pDelete'] = rnd.choice([0.25, 0.5, 1.0])
+            m['degree'] = rnd.choice([0, 1])      # `add` fires only while the locus has a node: one other node is always there
+        m['maxtime'] = rnd.choice([3.0, 4.0, 6.0]) if sync else rnd.choice([2.0, 3.0])
+    else:
+        nodes = list(graph['nodes'])
+        edges = {tuple(sorted(e)) for e in graph['edges']}
+        gone = []
+        ops = []
+        for _ in range(rnd.randrange(1, 7)):
+            ch = rnd.choice(['addnode', 'addnode', 'addedge', 'addedge', 'rmnode', 'rmedge'])
+            if ch == 'addnode':
+                x = rnd.choice(gone) if gone and rnd.random() < 0.3 else rnd.choice([y for y in range(20, 40) if y not in nodes])
+                nodes.append(x)
+                if x in gone:
+                    gone.remove(x)
+                ops.append(['addnode', x])
+            elif ch == 'addedge':
+                a, b = rnd.choice(nodes), rnd.choice(nodes)
+                if a == b and rnd.random() < 0.7:
+                    continue
+                edges.add(tuple(sorted((a, b))))
+                ops.append(['addedge', a, b])
+            elif ch == 'rmnode' and len(nodes) >= 2:
+                x = rnd.choice(nodes)
+                nodes.remove(x)
+                gone.append(x)
+                edges = {e for e in edges if x not in e}
+                ops.append(['rmnode', x])
+            elif ch == 'rmedge' and edges:
+                e = rnd.choice(sorted(edges))
+                edges.discard(e)
+                ops.append(['rmedge', e[0], e[1]] if rnd.random() < 0.5 else ['rmedge', e[1], e[0]])
+        if not ops:
+            ops = [['addnode', 41]]
+        # when each change happens (posted events; in order of posting among equal times)
+        ts = sorted(rnd.choice([0.25, 0.5, 0.5, 1.0, 1.5, 2.5]) for _ in ops)
+        m['ops'] = [[t] + op for t, op in zip(ts, ops)]
+    return m
+
+
+def monitored_table(table, delta):
+    """the table of the kernel model for [Monitor, components of `table`]: component 0 owns nothing, has no events and posts the
+    repeating program [observe] from time 0 (what Monitor.build does); the others move up by one"""
+    import copy
+    tb = copy.deepcopy(table)
+    tb['progs'] = tb['progs'] + [[['observe']]]
+    for l in tb['loci']:
+        l['owner'] += 1
+    tb['procs'] = [{'events': [], 'setup': [['postrep', 0.0, delta, len(tb['progs']) - 1]]}] + tb['procs']
+    return tb
+
+
+def gen_plain(rnd):
+    """Monitor over processes whose loci are not compartmented: AddDelete (a locus that follows the order of the network, two
+    fixed-rate events), a user process given by a table (plain loci changed by the event handlers, per-element and fixed-rate
+    events, posted events), and - for the position of the Monitor in the sequence - SIR / SIS"""
+    what = rnd.choice(['adddelete', 'adddelete', 'script', 'script', 'script', 'disease'])
+    dynamics = rnd.choice(['stochastic', 'synchronous'])
+    sync = dynamics == 'synchronous'
+    c = {'plain': what, 'dynamics': dynamics, 'seed': rnd.randrange(1 << 30), 'delta': rnd.choice(DELTAS), 'place': rnd.choice(PLACES)}
+    if what == 'adddelete':
+        c['graph'] = compart.gen_graph(rnd, lo=1, hi=6)
+        n = len(c['graph']['nodes'])
+        c['pAdd'] = rnd.choice([0.25, 0.5, 1.0] if sync else [0.5, 1.0, 2.0])
+        if rnd.random() < 0.4:
+            c['pDelete'] = 0.0
+            c['degree'] = rnd.randrange(0, min(n, 3) + 1)
+        else:
+            c['pDelete'] = rnd.choice([0.25, 0.5, 1.0] if sync else [0.5, 1.0, 2.0])
+            c['degree'] = rnd.choice([0, 1])
+        c['maxtime'] = rnd.choice([2.0, 3.0, 4.0]) if sync else rnd.choice([1.5, 3.0])
+    elif what == 'script':
+        c['table'] = kcommon.gen_table(rnd, dynamics, allow=['post', 'post', 'ladd', 'ldiscard', 'laddself', 'ldiscardself'],
+                                       nprocs=rnd.choice([1, 1, 2, 3]))
+    else:
+        c['model'] = rnd.choice(['SIR', 'SIS', 'SEIR', 'Opinion'])
+        c['graph'] = compart.gen_graph(rnd)
+        c['pv'] = compart.gen_params(rnd, dynamics)
+        c['maxtime'] = rnd.choice([2.0, 3.0, 4.0]) if sync else rnd.choice([1.5, 3.0])
+    return c
+
+
 class H(Harness):
     ID = 'C12'
     ANCHOR_FILES = ['epydemic/monitor.py', 'epydemic/networkdynamics.py', 'epydemic/stochasticdynamics.py', 'epydemic/synchronousdynamics.py', 'epydemic/statistics.py']
     TIE_IMPORT = 'From EpyV Require Import Model.Kernel Model.Loci Model.Compart Tie.Compart Tie.C12.\nOpen Scope Q_scope.'
     CHECK_FN = 'EpyV.Tie.C12.check_case'
     VO_TARGETS = ['Properties/C12.vo', 'Tie/C12.vo']
-    QUICK_N = 500
-    THOROUGH_N = 5000
-    RULE = ('(a) runs of every shipped compartmented model in a ProcessSequence with a Monitor, observation interval from {0.25, 0.5, 0.75, 1.5, 3} '
-            '(dyadic; intervals that do not divide the run length and are below the event spacing), both dynamics; (b) NetworkStatistics on networks of 1-9 '
-            'nodes: no edges, one hub, several clumps, random, complete, self-loops, path; non-trivial = a run with >= 2 observations between which a locus '
-            'changed size, or a network with >= 2 components or a hub; distinct by the whole case')
-    TRUSTED = ['Coq 8.16.1 kernel incl. vm_compute', 'harness/compart.py (event-tap snapshots of all locus sizes), harness/c12.py (own BFS and degree count)',
+    TIES = {'kernel': (kcommon.TIE_IMPORT, kcommon.CHECK_FN)}       # Tie/Kernel.v is in the cone of Tie/C12.v
+    QUICK_N = 650
+    THOROUGH_N = 6500
+    RULE = ('per 13 cases: 5 (a) runs of every shipped compartmented model in a ProcessSequence [Monitor, model], observation interval from {0.25, 0.5, 0.75, 1.5, 3} '
+            '(dyadic; intervals that do not divide the run length and are below the event spacing), both dynamics; 3 (a\') Monitor over processes with plain loci and '
+            'fixed-rate events - AddDelete (dyadic rates, growth only or with deletion), a user process interpreted from a random table (1-3 components, per-element '
+            'and fixed-rate events, handlers that add/discard elements and post events; whole run also through the kernel tie), SIR/SIS/SEIR/Opinion - with the Monitor '
+            'as first, last, nested-first or nested-last component; 5 (b) NetworkStatistics on networks of 1-9 '
+            'nodes: no edges, one hub, several clumps, random, complete, self-loops, path; in 35% of these a process of the sequence changes the network during the run '
+            '(a user process posting addNode/addEdge/removeNode/removeEdge at 0.25-2.5, AddDelete, Percolate with T in {0, 0.25, 0.5, 0.75}; both dynamics; NetworkStatistics '
+            'first in a quarter of them) and the statistics are judged on the network the run ended with; non-trivial = a run with >= 2 observations between which a locus '
+            'changed size, or a network with >= 2 components or a hub or a final network that differs from the prototype; distinct by the whole case')
+    TRUSTED = ['Coq 8.16.1 kernel incl. vm_compute', 'harness/compart.py (event-tap snapshots of all locus sizes), harness/c12.py (own BFS and degree count; event-tap snapshots for the '
+               'plain-loci runs; the final network read from Dynamics.network() when the simulation reports its end), harness/kscript.py, harness/kcommon.py',
                'networkx degree_histogram / connected_components: compared on every case with Model/NetStats.v and with the harness BFS, not verified']
-    ASSUMPTIONS = ['observation intervals are dyadic, so the repeated float addition t + delta is exact', 'the null network (division by zero in kmean) is outside the quantifier']
+    ASSUMPTIONS = ['observation intervals are dyadic, so the repeated float addition t + delta is exact', 'the null network (division by zero in kmean) is outside the quantifier: a run that ends with it is skipped']
 
     def gen_cases(self, tier, rnd, n):
         out = []
+        pattern = ['run', 'stats', 'plain', 'run', 'stats', 'run', 'stats', 'plain', 'run', 'stats', 'run', 'stats', 'plain']
         for i in range(n):
-            if i % 2 == 0:
+            what = pattern[i % len(pattern)]
+            if what == 'run':
                 c = compart.gen_case(rnd)
                 c['seq'] = True
                 c['delta'] = rnd.choice(DELTAS)
                 out.append(c)
+            elif what == 'plain':
+                out.append(gen_plain(rnd))
             else:
-                out.append({'stats': gen_stats_graph(rnd)})
+                c = {'stats': gen_stats_graph(rnd)}
+                if rnd.random() < 0.35:
+                    c['mut'] = gen_mutation(rnd, c['stats'])
+                out.append(c)
         return out
 
+    # ------------------------------------------------------------------ implementation
     def execute(self, case):
         if 'stats' in case:
-            import epydemic as ep
-            g = compart.make_graph(case['stats'])
-            proc = ep.ProcessSequence([ep.SIR(), ep.NetworkStatistics()])
-            dyn = ep.StochasticDynamics(proc, g)
-            install(Oracle(seed=1))
+            return self.run_stats(case)
+        if 'plain' in case:
+            return self.run_plain(case)
+        # every result the process tree hands to the dynamics, for the set of Monitor series
+        import epydemic as ep
+        import epydemic.networkdynamics as nd
+        handed = []
+        orig = nd.Dynamics.experimentalResults
+
+        def er(dyn):
+            r = orig(dyn)
+            handed.append(sorted(k for k in r if str(k).startswith(ep.Monitor.TIMESERIES_STEM)) if isinstance(r, dict) else None)
+            return r
+        nd.Dynamics.experimentalResults = er
+        try:
+            obs = compart.run_case(case)
+        finally:
+            nd.Dynamics.experimentalResults = orig
+        obs['series_keys'] = handed[-1] if handed else None
+        return obs
+
+    @staticmethod
+    def _watch_final(dyn, final):
+        """the network the run ends with: seen when the results are asked for and when the simulation reports its end"""
+        def view():
+            net = dyn.network()
+            return [list(net.nodes()), [tuple(e) for e in net.edges()]]
+        orig = dyn.experimentalResults
+
+        def er():
+            final['before_results'] = view()
+            return orig()
+        dyn.experimentalResults = er
+        dyn.simulationEnded = lambda res: final.__setitem__('ended', view())
+
+    def run_stats(self, case):
+        import epyc
+        import epydemic as ep
+        g = compart.make_graph(case['stats'])
+        mut = case.get('mut')
+        params = {}
+        dynamics = 'stochastic'
+        seed = 1
+        if mut is None:
+            procs = [ep.SIR(), ep.NetworkStatistics()]
             params = {ep.SIR.P_INFECTED: 0.0, ep.SIR.P_INFECT: 0.0, ep.SIR.P_REMOVE: 0.0}
-            exc = None
-            res = {}
-            try:
-                rc = dyn.set(params).run(fatal=True)
-                import epyc
-                res = rc[epyc.Experiment.RESULTS]
-            except Exception as e:
-                exc = type(e).__name__ + ': ' + str(e)
-            S = ep.NetworkStatistics
-            return {'exception': exc, 'g_nodes': list(g.nodes()), 'g_edges': [tuple(e) for e in g.edges()],
-                    'netstats': {k: res.get(v) for k, v in (('N', S.N), ('M', S.M), ('kmean', S.KMEAN), ('kmax', S.KMAX), ('kdist', S.KDIST),
-                                                         ('components', S.COMPONENTS), ('lcc', S.LCC), ('slcc', S.SLCC))}}
-        return compart.run_case(case)
+            maxtime = None
+        else:
+            dynamics, seed = mut['dynamics'], mut['seed']
+            maxtime = mut.get('maxtime', 3.0)
+            if mut['kind'] == 'percolate':
+                changer = ep.Percolate()
+                params[ep.Percolate.T] = mut['T']
+            elif mut['kind'] == 'adddelete':
+                changer = ep.AddDelete()
+                params.update({ep.AddDelete.P_ADD: mut['pAdd'], ep.AddDelete.P_DELETE: mut['pDelete'], ep.AddDelete.DEGREE: mut['degree']})
+            else:
+                ops = mut['ops']
+
+                class Changer(ep.Process):
+                    # a user process in the documented way: the network is changed through the Process interface by posted events
+                    def setUp(self, params):
+                        super().setUp(params)
+                        for op in ops:
+                            self.postEvent(op[0], None, self.handler(op[1:]))
+
+                    def handler(self, op):
+                        def h(t, e):
+                            if op[0] == 'addnode':
+                                self.addNode(op[1])
+                            elif op[0] == 'addedge':
+                                self.addEdge(op[1], op[2])
+                            elif op[0] == 'rmnode':
+                                self.removeNode(op[1])
+                            else:
+                                self.removeEdge(op[1], op[2])
+                        return h
+                changer = Changer()
+            procs = [ep.NetworkStatistics(), changer] if mut.get('stats_first') else [changer, ep.NetworkStatistics()]
+        proc = ep.ProcessSequence(procs)
+        if maxtime is not None:
+            proc.setMaximumTime(maxtime)
+        dyn = (ep.StochasticDynamics if dynamics == 'stochastic' else ep.SynchronousDynamics)(proc, g)
+        final = {}
+        self._watch_final(dyn, final)
+        install(Oracle(seed=seed))
+        exc = None
+        res = {}
+        try:
+            rc = dyn.set(params).run(fatal=True)
+            res = rc[epyc.Experiment.RESULTS]
+        except Exception as e:
+            exc = type(e).__name__ + ': ' + str(e)
+        S = ep.NetworkStatistics
+        fin = final.get('ended') or final.get('before_results')
+        obs = {'exception': exc, 'proto_nodes': list(g.nodes()), 'proto_edges': [tuple(e) for e in g.edges()],
+               'g_nodes': fin[0] if fin else None, 'g_edges': fin[1] if fin else None,
+               'netstats': {k: res.get(v) for k, v in (('N', S.N), ('M', S.M), ('kmean', S.KMEAN), ('kmax', S.KMAX), ('kdist', S.KDIST),
+                                                    ('components', S.COMPONENTS), ('lcc', S.LCC), ('slcc', S.SLCC))}}
+        if fin is not None and not fin[0]:
+            obs['skipped'] = True           # the run ended with the null network: outside the quantifier (mean degree 0/0)
+        changed = fin is not None and (sorted(fin[0]) != sorted(g.nodes()) or sorted(tuple(sorted(e)) for e in fin[1]) != sorted(tuple(sorted(e)) for e in g.edges()))
+        obs['changed'] = changed
+        obs['stats'] = {'stats_cases': 1, 'stats_final_network_differs_from_prototype': 1 if changed else 0}
+        return obs
+
+    def run_plain(self, case):
+        """[Monitor, process(es)] with the Monitor first, last or in a nested sequence; the obs has the shape compart.run_case gives"""
+        import epyc
+        import epydemic as ep
+        from epydemic import Dynamics, Monitor, ProcessSequence
+        what = case['plain']
+        params = {Monitor.DELTA: case['delta']}
+        rec = kscript.Recorder()
+        if what == 'adddelete':
+            g = compart.make_graph(case['graph'])
+            ps = [ep.AddDelete()]
+            params.update({ep.AddDelete.P_ADD: case['pAdd'], ep.AddDelete.P_DELETE: case['pDelete'], ep.AddDelete.DEGREE: case['degree']})
+            maxtime = case['maxtime']
+        elif what == 'script':
+            g = networkx.path_graph(3)
+            table = monitored_table(case['table'], case['delta'])      # component 0 of the table stands for the Monitor
+            ps = [kscript.ScriptProcess(pi, table, rec) for pi in range(1, len(table['procs']))]
+            maxtime = table['maxtime']
+        else:
+            g = compart.make_graph(case['graph'])
+            ps = [compart.models()[case['model']]()]
+            params.update(compart.params_for(case['model'], case['pv']))
+            maxtime = case['maxtime']
+        mon = Monitor()
+        place = case['place']
+        if what == 'script':
+            # for the kernel tie: the Monitor seen as the component that posts the repeating program [observe]
+            K = len(table['progs']) - 1
+            seen_by_monitor = mon.observe
+            rec.obs.append(['postedrep', 0.0, case['delta'], K, 0])
+
+            def observe(t, e):
+                rec.obs.append(['handler', K, t, mon.currentSimulationTime(), 0, None])
+                seen_by_monitor(t, e)
+                rec.obs.append(['observe', t, None])          # filled in from the Monitor's own results after the run
+            mon.observe = observe
+        if place == 'first':
+            top = ProcessSequence([mon] + ps)
+        elif place == 'last':
+            top = ProcessSequence(ps + [mon])
+        elif place == 'nested':
+            top = ProcessSequence([ProcessSequence([mon, ps[0]])] + ps[1:])
+        else:
+            top = ProcessSequence(ps + [ProcessSequence([mon])])
+        top.setMaximumTime(maxtime)
+        dyn = (ep.StochasticDynamics if case['dynamics'] == 'stochastic' else ep.SynchronousDynamics)(top, g)
+        rec.dyn = dyn
+        snaps = []
+        lspecs = []
+
+        def sizes():
+            return {k: len(l) for k, l in dyn.loci().items()}
+
+        def started(params_):
+            for nm in dyn.loci():
+                lspecs.append([nm, 'plain'])
+            snaps.append({'t': 0.0, 'name': '<start>', 'loci': sizes()})
+        dyn.simulationStarted = started
+
+        index = {id(q): i + 1 for i, q in enumerate(ps)}
+        index[id(mon)] = 0
+
+        def tap(t, p, name, e):
+            snaps.append({'t': t, 'name': name, 'loci': sizes()})
+            if what == 'script':
+                rec.obs.append(['tap', t, 0, 'p%d' % K, 0] if p is mon else ['tap', t, index.get(id(p), -1), name, e])
+            if len(snaps) > 400 or len(rec.obs) > 600:
+                raise kscript.Budget('run exceeds the harness budget')
+        dyn.eventFired = tap
+        handed = []
+        orig = dyn.experimentalResults
+
+        def er():
+            r = orig()
+            handed.append(r)
+            return r
+        dyn.experimentalResults = er
+        import epydemic.stochasticdynamics as sd
+        orc = install(Oracle(seed=case['seed']))
+        kscript.install_draw_recorder(rec)
+        saved_math = sd.math
+        sd.math = kscript.LogShim(rec)
+        exc = None
+        rc = None
+        try:
+            rc = dyn.set(params).run(fatal=True)
+        except Exception as e:
+            exc = type(e).__name__ + ': ' + str(e)
+        finally:
+            sd.math = saved_math
+            kscript.uninstall_draw_recorder()
+        md = (rc or {}).get(epyc.Experiment.METADATA, {}) if rc else {}
+        res = (rc or {}).get(epyc.Experiment.RESULTS, {}) if rc else {}
+        monitor = None
+        if isinstance(res, dict) and Monitor.OBSERVATIONS in res:
+            monitor = {'times': list(res[Monitor.OBSERVATIONS]),
+                       'series': [list(res.get(Monitor.timeSeriesForLocus(ls[0]), [])) for ls in lspecs]}
+        obs = {'exception': exc, 'loci_specs': lspecs, 'monitor': monitor, 'snaps': snaps, 'time': md.get(Dynamics.TIME),
+               'series_keys': sorted(k for k in handed[-1] if str(k).startswith(Monitor.TIMESERIES_STEM)) if handed and isinstance(handed[-1], dict) else None,
+               'stats': {'plain_' + what: 1, 'monitor_' + place: 1}}
+        if exc and exc.startswith('Budget'):
+            obs['skipped'] = True
+        if what == 'script':
+            # what the Monitor says it saw, observation by observation, in the order of the loci
+            k = 0
+            complete = monitor is not None
+            # ... of the table (the simulation knows them in the order in which the components were built)
+            by_table = [list(res.get(Monitor.timeSeriesForLocus('L%d' % li), [])) for li in range(len(table['loci']))] if complete else []
+            for o in rec.obs:
+                if o[0] == 'observe':
+                    if complete and k < len(monitor['times']) and all(k < len(sr) for sr in by_table):
+                        o[1] = monitor['times'][k]
+                        o[2] = [sr[k] for sr in by_table]
+                    else:
+                        o[2] = [4999]
+                        complete = False
+                    k += 1
+            if monitor is not None and k != len(monitor['times']):
+                complete = False
+            obs['kernel'] = {'exception': exc if complete or exc else 'the Monitor returned no complete series', 'obs': rec.obs,
+                             'rands': [e[1] for e in orc.values('random')], 'lns': list(rec.logs), 'draws': [d[1] for d in rec.draws],
+                             'time': md.get(Dynamics.TIME), 'events': md.get(Dynamics.EVENTS), 'steps': md.get(ep.SynchronousDynamics.TIMESTEPS_WITH_EVENTS, 0),
+                             'table': table}
+        return obs
 
     def direct(self, case, obs):
         if obs.get('skipped'):
@@ -130,6 +460,7 @@ class H(Harness):
             return [{'signature': 'run-raised', 'detail': obs['exception']}]
         v = []
         if 'stats' in case:
+            # "of the final network": the one the run ended with, which a process of the sequence may have changed or replaced
             exp = own_stats(obs['g_nodes'], obs['g_edges'])
             for k, x in exp.items():
                 got = obs['netstats'].get(k)
@@ -137,7 +468,8 @@ class H(Harness):
                     got = list(got) if got is not None else None
                 ok = (abs(got - x) <= 1e-12 * max(1.0, abs(x))) if (k == 'kmean' and got is not None) else (got == x)
                 if not ok:
-                    v.append({'signature': 'statistic-wrong:' + k, 'detail': {'reported': got, 'true': x, 'graph': case['stats']}})
+                    v.append({'signature': 'statistic-wrong:' + k, 'detail': {'reported': got, 'true': x, 'prototype': case['stats'], 'process': case.get('mut'),
+                                                                               'final_network': {'nodes': obs['g_nodes'], 'edges': obs['g_edges']}}})
             return v
         if obs.get('earlier_results_intact') is False:
             # the time series an earlier run on the same objects reported must still be what that run observed
@@ -155,6 +487,13 @@ class H(Harness):
         if mon['times'] != exp_times:
             v.append({'signature': 'observation-times', 'detail': {'recorded': mon['times'][:12], 'expected': exp_times[:12], 'TIME': obs['time'], 'delta': delta}})
         names = [ls[0] for ls in obs['loci_specs']]
+        keys = obs.get('series_keys')
+        if keys is not None:
+            # one series per locus of the simulation: no locus without a series, no series without a locus
+            import epydemic as ep
+            want = sorted(ep.Monitor.timeSeriesForLocus(nm) for nm in names)
+            if sorted(keys) != want:
+                v.append({'signature': 'series-set-differs-from-loci', 'detail': {'series': keys, 'loci': names}})
         if len(mon['series']) != len(names) or any(len(s) != len(mon['times']) for s in mon['series']):
             v.append({'signature': 'series-shape', 'detail': {'loci': names, 'lengths': [len(s) for s in mon['series']], 'observations': len(mon['times'])}})
             return v
@@ -174,6 +513,13 @@ class H(Harness):
         return v
 
     def to_coq(self, case, obs):
+        if obs.get('skipped'):
+            return None
+        if 'plain' in case:
+            # a user process given by a table: the whole run against the kernel model, the Monitor being the component that posts
+            # the repeating program [AObserve]; AddDelete and the disease models with a Monitor elsewhere: direct oracle only
+            k = obs.get('kernel')
+            return None if k is None else ('kernel', kcommon.to_coq({'table': k['table'], 'dynamics': case['dynamics']}, k))
         if 'stats' in case:
             if obs['exception']:
                 return '(CStats [] [] {| so_N := 4999; so_M := 0; so_kmean := 0; so_kmax := 0; so_kdist := []; so_components := 0; so_lcc := 0; so_slcc := 0 |})'
@@ -191,12 +537,12 @@ class H(Harness):
             return None
         if 'stats' in case:
             s = obs['netstats']
-            return str(case) if (s.get('components') or 0) >= 2 or (s.get('kmax') or 0) >= 3 else None
+            return str(case) if (s.get('components') or 0) >= 2 or (s.get('kmax') or 0) >= 3 or obs.get('changed') else None
         mon = obs.get('monitor') or {}
         ser = mon.get('series') or []
         return str(sorted(case.items(), key=str)) if any(len(set(s)) >= 2 for s in ser) else None
 
     def sample_view(self, case, obs):
         if 'stats' in case:
-            return {'graph': case['stats'], 'reported': obs.get('netstats')}
+            return {'graph': case['stats'], 'process': case.get('mut'), 'final_network': [obs.get('g_nodes'), obs.get('g_edges')], 'reported': obs.get('netstats')}
         return {'case': case, 'monitor': obs.get('monitor')}
